@@ -31,11 +31,31 @@ def jobs(tier):
     return js
 
 
+from props import C02 as _c02
+
+RECV_REDIR = dict(_c02.REDIR)
+RECV_REDIR.update({
+    "(*github.com/ipld/go-ipld-prime/linking.LinkSystem).Load": "rLoad",
+    "github.com/sourcenetwork/defradb/internal/core/block.GetEncryptionBlockFromNode": "rGetEncryptionBlockFromNode",
+    "github.com/sourcenetwork/defradb/crypto.EncryptAES": "rEncryptAES",
+    "github.com/sourcenetwork/defradb/crypto.DecryptAES": "rDecryptAES",
+})
+RECV_OVR = dict(_c02.OVR)
+RECV_OVR["github.com/sourcenetwork/defradb/internal/core/block.EncryptionSchemaPrototype"] = "opaque"
+
+
+def recv_jobs(tier):
+    return [{"id": f"O2.receiver.haskey{h}", "func": "VerifH_C11_Receiver", "conf": {"haskey": h, "dag": "", "orders": "all", "shortid": 0},
+             "_obligation": "O2", "_covers": ["processed"], "unwind": 60} for h in (0, 1)]
+
+
 PROPERTY = {
     "id": "C11",
-    "suites": [{"name": "encryption", "pkg": "internal/core/block", "files": ["zz_verif_block.go", "zz_verif_c11.go"], "common": ["intrinsics", "kvmodel"],
+    "suites": [
+        dict(_c02.SUITE, name="receiver", jobs=recv_jobs, redirects=RECV_REDIR, overrides=RECV_OVR,
+             files=["zz_verif_env.go", "zz_verif_merge.go", "zz_verif_c11recv.go"]),{"name": "encryption", "pkg": "internal/core/block", "files": ["zz_verif_block.go", "zz_verif_c11.go"], "common": ["intrinsics", "kvmodel"],
                 "jobs": jobs, "redirects": REDIR, "overrides": OVR, "unwind": 60, "witnesses": {"quick": 6, "thorough": 12}}],
     "bounds": {"fields": 2, "payload": "2 symbolic bytes per write", "history": "create (any encryption config: doc-level, any subset of the two fields, both) writing any subset of the fields, then one update without config writing any subset"},
     "assumptions": ["model cipher inside the solver run (injective, key-dependent, never equal to the plaintext); natively real AES-GCM", "injective block codec; block and key stores as tables"],
-    "outside_claim": ["AES-GCM itself, key exchange (internal/kms)", "what net puts on the wire beyond the update event bytes", "the receiver side (processEncryptedBlock) — see DESIGN.md"],
+    "outside_claim": ["AES-GCM itself, key exchange (internal/kms)", "what net puts on the wire beyond the update event bytes", "key exchange after a missing key (tryFetchMissingBlocksAndMerge waits on the event bus)"],
 }
